@@ -21,7 +21,7 @@ import copy
 import difflib
 
 from harness import core, values as V, diffcommon as D
-from harness.props.c02 import near_miss
+from harness.props.c02 import near_miss, stable_order
 
 THEOREM_FILE = "Properties/C03.v"
 COQCHK = ["Properties.C03"]
@@ -31,8 +31,8 @@ RULE = ("pairs of nested values over dict (str/int/float/None/bool keys), list, 
         "every depth) and near-miss edits (float +-0.5, int +-1, int<->float, bool<->int, str case/blank/newline, str<->bytes, list<->tuple, set<->frozenset), (d) the same with ==-aliased atoms (1/True/1.0); each with ignore_private_variables in {True, False}. "
         "Non-trivial = the expected result is non-empty; distinct by (t1, t2, ip).")
 TRUSTED = ["difflib.unified_diff is an oracle (Section variable udiff in Coq; the same difflib call in the Python specification)",
-           "DeepHash of set members enters the model as an injective function (theorem hypothesis); the correspondence with the model skips pairs whose "
-           "sets contain ==-aliased numbers or tag-like strings (findings K2, K1) - the Python specification is still compared on them",
+           "DeepHash of set members enters the main theorem as an injective function (hypothesis); the correspondence uses the DeepHash scalar model and, for pairs whose "
+           "sets contain ==-aliased numbers (finding K2), the memo-threaded model Diff/DiffMemo.v run_diff_m; the Python specification is compared on every pair",
            "path strings: the model renders key sequences with the printer model Path/PathModel.v; the Python specification has its own 6-line renderer",
            "values are tree-shaped (fresh containers), floats are half-integers, no bytes dict keys (finding F5, outside the quantifier), "
            "no bytes that are not valid UTF-8 inside sets (DeepDiff raises UnicodeDecodeError asking for ignore_encoding_errors: documented)"]
@@ -289,12 +289,15 @@ def one_pair(ctx, t1, t2, ip, cases_model, cases_spec, cases_specs, corr=True):
         cases_model.append(("model", t1, t2, ip, observed, dict(tag, what="model vs implementation")))
         cases_spec.append(("spec", t1, t2, ip, observed, dict(tag, what="coq spec vs implementation")))
     else:
-        ctx.count("outside_model_guard")
+        # ==-aliased set members: the memo-threaded model Diff/DiffMemo.v (DeepDiff's run-wide DeepHash table)
+        ctx.count("aliased_set_members:run_on_memo_model")
+        cases_model.append(("memo", t1, t2, ip, observed, dict(tag, what="memo model vs implementation")))
 
 
 def build(lazy):
     kind, t1, t2, ip, obs, tag = lazy
-    expr = D.model_text_expr(t1, t2, True, 0, 2, ip) if kind == "model" else spec_expr(t1, t2, ip)
+    expr = (D.model_text_expr(t1, t2, True, 0, 2, ip) if kind == "model"
+            else D.memo_text_expr(t1, t2, True, 0, 2, ip) if kind == "memo" else spec_expr(t1, t2, ip))
     return (expr, obs, tag)
 
 
@@ -319,16 +322,20 @@ def run(ctx):
     cases_model, cases_spec, cases_specs = [], [], []
     for i, (t1, t2) in enumerate(pairs + rnd):
         ip = (i % 2 == 0)
+        t1, t2 = stable_order(t1), stable_order(t2)
         one_pair(ctx, t1, t2, ip, cases_model, cases_spec, cases_specs)
     replay_witnesses(ctx)
     # correspondence budget: a seeded slice of the evaluated pairs (10x larger in thorough)
     def pick(cs, n):
         n = n * 10 if ctx.thorough else n
         return cs if len(cs) <= n else ctx.rng.sample(cs, n)
-    cm, cs, css = ([build(x) for x in pick(l, n)] for l, n in ((cases_model, 2500), (cases_spec, 2000), (cases_specs, 2000)))
+    memo_cases = [x for x in cases_model if x[0] == "memo"]
+    plain_cases = [x for x in cases_model if x[0] != "memo"]
+    ctx.count("corr:memo_model_cases", len(pick(memo_cases, 600)))
+    cm, cs, css = ([build(x) for x in l] for l in (pick(plain_cases, 2500) + pick(memo_cases, 600), pick(cases_spec, 2000), pick(cases_specs, 2000)))
     for c in cm[:3]:
         ctx.sample(c[2])
-    hdr = D.MODEL_HDR + "\nFrom DD Require Import Diff.Spec."
+    hdr = D.MODEL_HDR_M + "\nFrom DD Require Import Diff.Spec."
     ctx.coq_cases("c03m", hdr, cm, shard=150, label="model_vs_impl")
     ctx.coq_cases("c03s", hdr, cs, shard=150, label="coqspec_vs_impl")
     ctx.coq_cases("c03p", hdr, css, shard=150, label="coqspec_vs_pyspec")
